@@ -66,6 +66,9 @@ def run(tier, rep, ev):
         [{"k": "file", "p": 0, "t": 0}, {"k": "dir", "p": 0, "t": 0}, {"k": "link", "p": 2, "t": 1}, {"k": "dir", "p": 2, "t": 0}, {"k": "link", "p": 4, "t": 1},
          {"k": "empty", "p": 4, "t": 0}],
     ]
+    # (index 11 mod 12: names by sibling position + the tree's entries at the archive root: a link to a sibling whose text equals a top-level name)
+    pad = (11 - len(ts)) % 12
+    ts += [[{"k": "file", "p": 0, "t": 0}]] * pad + [[{"k": "file", "p": 0, "t": 0}, {"k": "dir", "p": 0, "t": 0}, {"k": "file", "p": 2, "t": 0}, {"k": "link", "p": 2, "t": 3}]]
     base = scratch("c02w")
     cases = []
     for i, t in enumerate(ts):
